@@ -848,6 +848,14 @@ func (c *Canonicalizer) processInstruction(instr ssa.Instruction) {
 	case *ssa.BinOp:
 		normX := c.NormalizeOperand(i.X, instr)
 		normY := c.NormalizeOperand(i.Y, instr)
+		if i.Op == token.EQL || i.Op == token.NEQ {
+			// `chosen == k` on a select: k is a position in the ORIGINAL case order
+			if s, ok := c.selectCaseOperand(i.Y, i.X); ok {
+				normY = s
+			} else if s, ok := c.selectCaseOperand(i.X, i.Y); ok {
+				normX = s
+			}
+		}
 		op := c.getVirtualBinOpToken(i)
 		c.scratch.WriteString("BinOp ")
 		c.scratch.WriteString(op.String())
@@ -938,7 +946,14 @@ func (c *Canonicalizer) processInstruction(instr ssa.Instruction) {
 	case *ssa.Next:
 		c.scratch.WriteString(fmt.Sprintf("Next %s", c.NormalizeOperand(i.Iter, instr)))
 	case *ssa.Extract:
-		c.scratch.WriteString(fmt.Sprintf("Extract %s, %d", c.NormalizeOperand(i.Tuple, instr), i.Index))
+		index := i.Index
+		if sel, ok := i.Tuple.(*ssa.Select); ok && index >= 2 {
+			// #2.. are the received values in ORIGINAL case order
+			if pos, ok := c.canonicalSelectRecv(sel, index-2); ok {
+				index = 2 + pos
+			}
+		}
+		c.scratch.WriteString(fmt.Sprintf("Extract %s, %d", c.NormalizeOperand(i.Tuple, instr), index))
 	case *ssa.Slice:
 		c.scratch.WriteString(fmt.Sprintf("Slice %s", c.NormalizeOperand(i.X, instr)))
 		if i.Low != nil {
@@ -1037,25 +1052,29 @@ func (c *Canonicalizer) processInstruction(instr ssa.Instruction) {
 	c.output.WriteString(c.scratch.String() + "\n")
 }
 
-func (c *Canonicalizer) writeSelect(w *strings.Builder, i *ssa.Select, context ssa.Instruction) {
-	w.WriteString("Select")
-	if i.Blocking {
-		w.WriteString(" [blocking]")
-	} else {
-		w.WriteString(" [non-blocking]")
-	}
+// selectStateCanon captures the canonicalized representation of one select case.
+type selectStateCanon struct {
+	origIndex   int    // index in the Select's States slice (-1 for the implicit default)
+	dir         string // Direction: "->" (send), "<-" (recv), or "?" (unknown)
+	chanRepr    string // Canonical representation of channel operand
+	sendValRepr string // Canonical representation of sent value (for sends only)
+	sortKey     string // Pre-computed key for deterministic sorting
+}
 
-	// selectStateCanon captures the canonicalized representation of each case.
-	// Use origIndex to track the original position for Extract instruction correlation,
-	// but sort by canonical form to produce stable fingerprints across case reordering.
-	type selectStateCanon struct {
-		origIndex   int    // Original index in States slice (for documentation/debugging)
-		dir         string // Direction: "->" (send), "<-" (recv), or "?" (unknown)
-		chanRepr    string // Canonical representation of channel operand
-		sendValRepr string // Canonical representation of sent value (for sends only)
-		sortKey     string // Pre-computed key for deterministic sorting
-	}
-
+// selectStates returns the cases of a select in CANONICAL order (sorted by direction, channel and
+// sent value, the implicit default first).
+//
+// Reordering the cases of a select in the source is a semantically neutral refactor, so the cases
+// are printed in a canonical order. The instructions that consume the select's result, however,
+// address the cases by their ORIGINAL position (the chosen-case index is compared with 0, 1, ...;
+// received values are Extract #2, #3, ...). Printing those positions unchanged next to the sorted
+// case list bound each arm to the wrong channel: exchanging which channel leads to which arm did
+// not change the IR. canonicalSelectCase / canonicalSelectRecv translate original positions into
+// positions of the canonical order, and the consumers print those.
+func (c *Canonicalizer) selectStates(i *ssa.Select) []selectStateCanon {
+	// the select itself is the usage context of its operands, whoever asks: the literal policy looks
+	// at the context, and the order must be the same for the select line and for its consumers
+	var context ssa.Instruction = i
 	var states []selectStateCanon
 
 	// Non-blocking selects have an implicit default case. We represent it canonically.
@@ -1098,22 +1117,90 @@ func (c *Canonicalizer) writeSelect(w *strings.Builder, i *ssa.Select, context s
 		states = append(states, s)
 	}
 
-	// Sort select cases to produce deterministic fingerprints.
-	// The Go spec does not define case evaluation order for select when multiple
-	// channels are ready (it's random at runtime). Therefore, reordering cases
-	// in source code is a semantically neutral refactor that should not change
-	// the fingerprint.
-	//
-	// Note: The Select instruction's return value includes an index indicating
-	// which case was chosen. Code that depends on this index (via Extract) will
-	// still work correctly because we're only canonicalizing the *representation*
-	// for fingerprinting, not modifying the actual SSA. The Extract indices
-	// remain bound to original positions.
 	sort.SliceStable(states, func(a, b int) bool {
 		return states[a].sortKey < states[b].sortKey
 	})
+	return states
+}
 
-	for _, state := range states {
+// canonicalSelectCase maps the original index of a case to its position among the real cases in
+// canonical order; ok is false for an index that is not a case of the select.
+func (c *Canonicalizer) canonicalSelectCase(sel *ssa.Select, orig int) (pos int, ok bool) {
+	n := 0
+	for _, st := range c.selectStates(sel) {
+		if st.origIndex < 0 {
+			continue
+		}
+		if st.origIndex == orig {
+			return n, true
+		}
+		n++
+	}
+	return 0, false
+}
+
+// canonicalSelectRecv maps the k-th receive case in original order to its position among the
+// receive cases in canonical order.
+func (c *Canonicalizer) canonicalSelectRecv(sel *ssa.Select, k int) (pos int, ok bool) {
+	origOfRecv := -1
+	seen := 0
+	for idx, st := range sel.States {
+		if st.Dir == types.RecvOnly {
+			if seen == k {
+				origOfRecv = idx
+				break
+			}
+			seen++
+		}
+	}
+	if origOfRecv < 0 {
+		return 0, false
+	}
+	n := 0
+	for _, st := range c.selectStates(sel) {
+		if st.origIndex < 0 || st.dir != "<-" {
+			continue
+		}
+		if st.origIndex == origOfRecv {
+			return n, true
+		}
+		n++
+	}
+	return 0, false
+}
+
+// selectCaseOperand: when v is an integer constant that a comparison tests the chosen-case index of
+// a select against, it returns the canonical spelling of that case.
+func (c *Canonicalizer) selectCaseOperand(v, other ssa.Value) (string, bool) {
+	k, isConst := v.(*ssa.Const)
+	ex, isExtract := other.(*ssa.Extract)
+	if !isConst || !isExtract || ex.Index != 0 || k.Value == nil || k.Value.Kind() != constant.Int {
+		return "", false
+	}
+	sel, isSelect := ex.Tuple.(*ssa.Select)
+	if !isSelect {
+		return "", false
+	}
+	idx, exact := constant.Int64Val(k.Value)
+	if !exact || idx < 0 || idx >= int64(len(sel.States)) {
+		return "", false
+	}
+	pos, ok := c.canonicalSelectCase(sel, int(idx))
+	if !ok {
+		return "", false
+	}
+	return fmt.Sprintf("<select_case:%d>", pos), true
+}
+
+func (c *Canonicalizer) writeSelect(w *strings.Builder, i *ssa.Select, context ssa.Instruction) {
+	w.WriteString("Select")
+	if i.Blocking {
+		w.WriteString(" [blocking]")
+	} else {
+		w.WriteString(" [non-blocking]")
+	}
+
+	for _, state := range c.selectStates(i) {
 		w.WriteString(fmt.Sprintf(" (%s %s", state.dir, state.chanRepr))
 		if state.sendValRepr != "" {
 			w.WriteString(fmt.Sprintf(" <- %s", state.sendValRepr))
